@@ -3,6 +3,11 @@
 import json, subprocess
 
 BUILT = {
+ "C19": dict(level="exploration",
+   technique="model-based testing of generated attack sequences (every syntactic mutation path x every value type and size) combined with a registers on/off differential; oracle = the constant keeps its bound value until an explicit del",
+   text="A constant is bound to one of 26 values (every scalar type, arrays and maps of 0..20 elements on both sides of the thresholds, nested containers, functions) and attacked by 3-14 generated attempts drawn from 36 forms: =, :=, same-value re-assignment, ++ / -- in all four forms, index / field assignment, del of an element, self-append, loop variable of each of the five loop forms, parameter of functions and lambdas, assignment from nested functions, loops and closures, func NAME(){} redefinition, mutation through an alias or a mutating function, and del + re-binding (which resets the model). After every attempt the constant read at top level must equal the model's value, any value printed for it by a non-failing attempt must be the model's, and error/no-error and output must agree between a session with registers and one without.",
+   note="The alias path on large containers belongs to known finding K-C06-1 and is excluded by construction while that is listed.",
+   ref="DESIGN.md section 3, C19"),
  "C10": dict(level="exploration",
    technique="metamorphic / twin-session testing: a history of succeeding inputs with and without interleaved side-effect-free failing inputs; oracle = every succeeding input behaves identically in both sessions",
    text="Succeeding inputs (typed-grammar statements plus fixed inputs that print from inside a function, run counted loops and recurse) are fed to one persistent session, and to a twin in which 0..12 failing inputs of 25 kinds (language error at top level / in nested calls / in every loop form, type error deep in an expression, depth overflow, memory-guard refusal, deadline on a tight loop, parse error, incomplete input, wrong arity...) are inserted at every position; the session writer is set once, so output that goes astray shows up as a missing delta. Per succeeding input the output, echo, errors and panicked flag must match, and the final globals too. Every failure kind is also run 12 times in a row in a deterministic family.",
